@@ -8,11 +8,12 @@
        the number of readyok printed during a search equals the number of isready lines taken;
      - every session comes to an end: with end of input delivered as `quit`, the loop ends by Exit (or a Rust panic on malformed input),
        never by starvation -- for every command sequence and every timing;
-     - every modelled `go` prints exactly one bestmove (C03_exactly_one_bestmove).
+     - every modelled `go` line is answered, in the loop model, with exactly one bestmove, the last line of the answer
+       (C13_go_answered_with_exactly_one_bestmove).
    Threads, the OS pipe and wall-clock promptness cannot be exhibited by a Gallina model (runtime, sampled by black-box runs through a
    real pipe); the session model is tied to the real main loop by scripted sessions with deterministic arrival of lines. *)
 From Coq Require Import NArith ZArith List Bool String.
-From JV Require Import Gen.Consts Model.Chess Model.TT Model.Search Model.SearchChess Model.Fen Model.Go Model.Uci Proofs.UciLoopProofs.
+From JV Require Import Gen.Consts Model.Chess Model.TT Model.Search Model.SearchChess Model.Fen Model.Go Model.Uci Model.Eval Proofs.UciLoopProofs Props.C03.
 Import ListNotations.
 Local Open Scope string_scope.
 
@@ -50,7 +51,53 @@ Proof. exact poll_schedule_ready_count. Qed.
 Theorem C13_terminates : forall extra input, snd (uci_session extra input) <> Continue.
 Proof. exact uci_session_ends. Qed.
 
+Definition is_best (o : uout) : bool := match o with OSearchOut (OBest _) => true | _ => false end.
+
+Lemma filter_map_none {A} (f : A -> uout) (P : uout -> bool) l : (forall x, P (f x) = false) -> filter P (map f l) = [].
+Proof. intros H. induction l as [|x l IH]; [reflexivity|]. cbn [map filter]. rewrite H. exact IH. Qed.
+Lemma filter_repeat_none (P : uout -> bool) o n : P o = false -> filter P (repeat o n) = [].
+Proof. intros H. induction n as [|n IH]; [reflexivity|]. cbn [repeat filter]. rewrite H. exact IH. Qed.
+
+(* at the level of the main loop: every `go` line whose arguments parse and whose budget the loop model covers (depth-limited,
+   infinite, or a deadline that has already passed) -- whatever the engine state, the remaining input and its timing -- is answered
+   with the lines of one search: readyok for the isready lines taken meanwhile, info lines, and exactly one bestmove, which is the last line *)
+Theorem C13_go_answered_with_exactly_one_bestmove : forall extra u line input a msgs,
+  lower_str (first_token (trim line)) = "go" -> trim line <> "" ->
+  go_tokens (white (u_game u)) go_init (split_sp (skip 2 (trim line))) [] (S (String.length (trim line))) = GoArgs a msgs ->
+  (go_budget a = -1 \/ go_budget a = 0)%Z ->
+  let '(_, outs, _, _, st) := uci_step extra u line input in
+  st = Continue /\ List.length (filter is_best outs) = 1%nat /\ exists pre m, outs = (pre ++ [OSearchOut (OBest m)])%list.
+Proof.
+  intros extra u line input a msgs CMD NE GT BD. unfold uci_step. cbn zeta.
+  destruct (String.eqb_spec (trim line) "") as [E|_]; [contradiction|]. rewrite CMD.
+  change (String.eqb "go" "quit" || String.eqb "go" "exit" || String.eqb "go" "x")%bool with false. cbn iota.
+  change (String.eqb "go" "uci") with false. change (String.eqb "go" "isready") with false.
+  change (String.eqb "go" "ucinewgame" || String.eqb "go" "cleartt")%bool with false. change (String.eqb "go" "d") with false.
+  change (String.eqb "go" "eval") with false. change (String.eqb "go" "position") with false. change (String.eqb "go" "go") with true. cbn iota.
+  rewrite GT.
+  assert (NB : negb ((go_budget a =? -1)%Z || (go_budget a =? 0)%Z) = false).
+  { destruct BD as [B|B]; rewrite B; reflexivity. }
+  rewrite NB. unfold session_search.
+  match goal with |- context [chess_search ?p ?s ?b ?g ?d ?t ?rt ?ri] => destruct (C03_exactly_one_bestmove p s b g d t rt ri) as (infos & m & e & sc & H & FI) end.
+  rewrite H.
+  assert (FIN : forall (nready : nat),
+      List.length (filter is_best (map OText msgs ++ repeat (OText "readyok") nready ++ map OSearchOut (infos ++ [OBest m]))%list) = 1%nat /\
+      exists pre m0, (map OText msgs ++ repeat (OText "readyok") nready ++ map OSearchOut (infos ++ [OBest m]))%list = (pre ++ [OSearchOut (OBest m0)])%list).
+  { intros nready. split.
+    - rewrite !filter_app. rewrite (filter_map_none OText) by reflexivity. rewrite filter_repeat_none by reflexivity.
+      rewrite map_app, filter_app. cbn [map filter is_best app length].
+      assert (Z : filter is_best (map OSearchOut infos) = []).
+      { clear -FI. induction infos as [|x l IH]; [reflexivity|]. cbn [map filter]. inversion FI as [|? ? Hx Hl]; subst.
+        destruct x; [cbn [is_best]; apply IH; exact Hl|destruct Hx]. }
+      rewrite Z. reflexivity.
+    - exists (map OText msgs ++ repeat (OText "readyok") nready ++ map OSearchOut infos)%list, m. rewrite map_app. cbn [map]. rewrite <- !app_assoc. reflexivity. }
+  destruct BD as [B|B]; rewrite B; cbn [Z.eqb].
+  - destruct (poll_schedule input 0 (Some (npolls e)) (List.length input)) as [[nready stopper] rest]. split; [reflexivity|apply FIN].
+  - split; [reflexivity|apply FIN].
+Qed.
+
 Print Assumptions C13_uciok.
+Print Assumptions C13_go_answered_with_exactly_one_bestmove.
 Print Assumptions C13_polls_take_a_prefix.
 Print Assumptions C13_one_readyok_per_isready_during_search.
 Print Assumptions C13_terminates.
